@@ -61,7 +61,7 @@ def _alarm(signum, frame):
 
 
 class watchdog(object):
-    def __init__(self, seconds=10.0):
+    def __init__(self, seconds=20.0):
         self.seconds = seconds
 
     def __enter__(self):
@@ -109,21 +109,49 @@ def gen_posting_list(rng):
     return (ids, fs)
 
 
-def gen_tree(rng, depth, kinds, leaf, boosts=(0.5, 1.0, 1.0, 0.25, 2.0, 4.0)):
+_MULTI_FIXED = []
+
+
+def multi_quality_repaired():
+    """does the tree under test answer max_quality()/block_quality() on an exhausted MultiMatcher (repair
+    'MultiMatcher quality reads raise once the matcher is exhausted')?  On a tree without it
+    DisjunctionMaxMatcher, which reads the bounds of both sides unguarded, raises ValueError/IndexError as soon
+    as a MultiMatcher side is used up, IntersectionMatcher.skip_to_quality reads them right after moving a side -
+    the recorded finding; the generators then keep MultiMatcher out of binary sub-trees (root and below wrappers
+    only) so that everything else about it is still compared."""
+    if not _MULTI_FIXED:
+        from whoosh.matching import MultiMatcher
+        try:
+            MultiMatcher([], [], None).max_quality()
+            _MULTI_FIXED.append(True)
+        except ValueError:
+            _MULTI_FIXED.append(False)
+    return _MULTI_FIXED[0]
+
+
+def gen_tree(rng, depth, kinds, leaf, boosts=(0.5, 1.0, 1.0, 0.25, 2.0, 4.0), nomulti=False):
     """`leaf(rng)` makes a leaf tuple"""
     if depth <= 0 or rng.random() < 0.2:
         if rng.random() < 0.04:
             return ("null",)
         return leaf(rng)
     k = rng.choice(kinds)
+    if k == "multi" and nomulti:
+        return leaf(rng)
+    if k == "multi":
+        return gen_multi(rng, leaf)
+    if k in BIN and "multi" in kinds and not multi_quality_repaired():
+        # (every binary class can read the bounds of an exhausted side: DisjunctionMax directly, Intersection in
+        # its skip loop, and Union/AndMaybe/Require turn into an Intersection in replace())
+        nomulti = True
     if k in BIN:
-        a = gen_tree(rng, depth - 1, kinds, leaf, boosts)
+        a = gen_tree(rng, depth - 1, kinds, leaf, boosts, nomulti)
         if rng.random() < 0.08:
             b = a           # the same list on both sides (full alignment)
         else:
-            b = gen_tree(rng, depth - 1, kinds, leaf, boosts)
+            b = gen_tree(rng, depth - 1, kinds, leaf, boosts, nomulti)
         return (k, a, b)
-    c = gen_tree(rng, depth - 1, kinds, leaf, boosts)
+    c = gen_tree(rng, depth - 1, kinds, leaf, boosts, nomulti)
     if k == "boost":
         return (k, rng.choice(boosts), c)
     if k == "filter":
@@ -137,9 +165,71 @@ def gen_tree(rng, depth, kinds, leaf, boosts=(0.5, 1.0, 1.0, 0.25, 2.0, 4.0)):
     raise ValueError(k)
 
 
+def gen_multi(rng, leaf):
+    """("multi", offsets, children): a MultiMatcher over leaf matchers of one kind (the posting lists of one
+    term in the segments of an index; its score() reads the current sub-matcher's weight())"""
+    first = leaf(rng)
+    kids = [first]
+    for _ in range(rng.choice([0, 1, 2, 2, 3, 4])):
+        if first[0] == "list" and rng.random() < 0.2:
+            kids.append(("list", [], [], first[3]))      # a segment without postings of the term
+            continue
+        for _try in range(8):
+            c = leaf(rng)
+            if c[0] == first[0]:
+                kids.append(c)
+                break
+    offs, o = [], rng.choice([0, 0, 3])
+    for _ in kids:
+        offs.append(o)
+        o += NDOCS + rng.choice([0, 1, 7])
+    return ("multi", offs, kids)
+
+
+def gen_combo(rng, leaf=None):
+    """("aunion", doccount, boost, partsize, kids) or ("preload", doccount, boost, kids): the array matchers of
+    combo.py over sub-matchers of one shape (a leaf, or one binary/boost node over leaves)"""
+    leaf = leaf or gen_list
+    wrap = rng.choice([None, None, None, "union", "inter", "andnot", "andmaybe", "dismax", "boost"])
+
+    def kid():
+        if wrap is None:
+            return leaf(rng)
+        if wrap == "boost":
+            return ("boost", 0.5, leaf(rng))
+        return (wrap, leaf(rng), leaf(rng))
+    kids = [kid() for _ in range(rng.choice([1, 2, 3, 3, 4]))]
+    doccount = rng.choice([NDOCS, NDOCS, NDOCS, NDOCS + 6, 12])
+    boost = rng.choice([1.0, 1.0, 2.0, 0.5])
+    if rng.random() < 0.25:
+        return ("preload", doccount, boost, kids)
+    return ("aunion", doccount, boost, rng.choice([1, 2, 3, 5, 8, 8, 16, 2048]), kids)
+
+
+def aunion_rewinds():
+    """does the tree under test implement ArrayUnionMatcher.reset()/copy() (repairs on branch r2-matcher)?"""
+    from whoosh.matching import ArrayUnionMatcher
+    return "reset" in ArrayUnionMatcher.__dict__ and "copy" in ArrayUnionMatcher.__dict__
+
+
+def multi_parts(t, rix):
+    """(offset, child) pairs of a multi node that really become sub-matchers: like Searcher.postings, segments
+    that do not have the term (empty posting list -> TermNotFound) are left out"""
+    out = []
+    for o, c in zip(t[1], t[2]):
+        if c[0] == "term" and not rix.spec.lists[c[1]][0]:
+            continue
+        out.append((o, c))
+    return out
+
+
 def tree_kinds(t, acc=None):
     acc = set() if acc is None else acc
     acc.add(t[0])
+    if t[0] == "multi":
+        for x in t[2]:
+            tree_kinds(x, acc)
+        return acc
     for x in t[1:]:
         if isinstance(x, tuple) and x and isinstance(x[0], str):
             tree_kinds(x, acc)
@@ -147,6 +237,8 @@ def tree_kinds(t, acc=None):
 
 
 def tree_size(t):
+    if t[0] == "multi":
+        return 1 + sum(tree_size(x) for x in t[2])
     return 1 + sum(tree_size(x) for x in t[1:] if isinstance(x, tuple) and x and isinstance(x[0], str))
 
 
@@ -161,6 +253,28 @@ def max_boost(t):
         if isinstance(x, tuple) and x and isinstance(x[0], str):
             b = max(b, max_boost(x))
     return b
+
+
+def min_boost(t):
+    """smallest boost of a boost/filter node in the tree (1 if none)"""
+    b = 1.0
+    if t[0] == "boost":
+        b = min(b, t[1])
+    if t[0] == "filter":
+        b = min(b, t[3])
+    for x in t[1:]:
+        if isinstance(x, tuple) and x and isinstance(x[0], str):
+            b = min(b, min_boost(x))
+    return b
+
+
+def unit_boosts(t):
+    """all boosts in (0, 1]: the trees for which replace(q) is proved to keep every entry above q"""
+    return min_boost(t) > 0 and max_boost(t) <= 1
+
+
+# boosts of the correspondence streams: also the degenerate ones (the model mirrors the code for any boost)
+CORR_BOOSTS = (0.5, 1.0, 1.0, 0.25, 2.0, 4.0, 0.5, 1.0, 1.0, 0.25, 2.0, 4.0, 0.0, -0.5, -1.0)
 
 
 # ------------------------------------------------------------------------------------------------
@@ -327,11 +441,14 @@ def build_real(t, rix=None):
         return M.InverseMatcher(build_real(t[4], rix), t[1], missing=lambda i: i in miss, weight=t[3])
     if k == "const":
         return M.ConstantScoreWrapperMatcher(build_real(t[2], rix), score=t[1])
-    if k == "multi":       # ("multi", offsets, [children])  -- not in the Lean model (end-to-end only)
+    if k == "multi":       # ("multi", offsets, [children])
         from whoosh.scoring import WeightScorer as WS
-        return M.MultiMatcher([build_real(c, rix) for c in t[2]], list(t[1]), WS(1.0))
-    if k == "aunion":      # ("aunion", doccount, boost, partsize, [children])  -- end-to-end only
+        parts = multi_parts(t, rix)
+        return M.MultiMatcher([build_real(c, rix) for _, c in parts], [o for o, _ in parts], WS(1.0))
+    if k == "aunion":      # ("aunion", doccount, boost, partsize, [children])  -- root only
         return M.ArrayUnionMatcher([build_real(c, rix) for c in t[4]], t[1], boost=t[2], partsize=t[3])
+    if k == "preload":     # ("preload", doccount, boost, [children])  -- root only
+        return M.PreloadedUnionMatcher([build_real(c, rix) for c in t[3]], t[1], boost=t[2])
     raise ValueError(k)
 
 
@@ -353,6 +470,12 @@ def tree_sexp(t, rix=None):
         return "(inverse %d %s %s %s)" % (t[1], sexp(list(t[2])), sexp(float(t[3])), tree_sexp(t[4], rix))
     if k == "const":
         return "(const %s %s)" % (sexp(float(t[1])), tree_sexp(t[2], rix))
+    if k == "multi":
+        return "(multi%s)" % "".join(" (%d %s)" % (o, tree_sexp(c, rix)) for o, c in multi_parts(t, rix))
+    if k == "aunion":
+        return "(aunion %d %s %d%s)" % (t[1], sexp(float(t[2])), t[3], "".join(" " + tree_sexp(c, rix) for c in t[4]))
+    if k == "preload":
+        return "(preload %s%s)" % (sexp(float(t[2])), "".join(" " + tree_sexp(c, rix) for c in t[3]))
     raise ValueError(k)
 
 
@@ -398,19 +521,39 @@ def observe(m):
         guarded(m.block_quality) if sup else "-", guarded(m.max_quality) if sup else "-")
 
 
-def observe_reshaped(m, q):
-    if m.is_active():
-        try:
-            s = m.score()
-            if s > q:
-                return "(R 1 %s %s)" % (num(m.id()), num(s))
-        except Exception as e:  # noqa
-            return "(R %s)" % err_name(e)
-    return "(R)"
+def observe_allids(m):
+    """the class's own all_ids() on a copy of the real matcher (all_ids() consumes the matcher)"""
+    try:
+        with watchdog():
+            ids = list(m.copy().all_ids())
+    except Hang:
+        return "(A !HANG)"
+    except Exception as e:  # noqa
+        return "(A %s)" % err_name(e)
+    return "(A" + "".join(" %d" % i for i in ids) + ")"
+
+
+def observe_sem(m, thr):
+    """the semantic observation after a reshaping replace: the remaining entries that score above `thr`,
+    read by stepping a copy of the real matcher to its end"""
+    try:
+        with watchdog():
+            rest = drain(m.copy()) if m.is_active() else []
+    except Hang:
+        return "(H !HANG)"
+    except Exception as e:  # noqa
+        return "(H %s)" % err_name(e)
+    return "(H " + " ".join("(%s %s)" % (num(i), num(s)) for i, s in rest if s > thr) + ")"
+
+
+def _op1(op):
+    return op[0] if len(op) == 1 else "(%s %s)" % (op[0], num(op[1]) if op[0] in ("skipq", "replace", "replace!") else op[1])
 
 
 def op_sexp(op):
-    return op[0] if len(op) == 1 else "(%s %s)" % (op[0], num(op[1]) if op[0] in ("skipq", "replace", "replace!") else op[1])
+    if op[0] == "sem":
+        return "(sem %s %s)" % (num(op[1]), _op1(op[2]))
+    return _op1(op)
 
 
 def apply_real(m, regs, op):
@@ -433,9 +576,47 @@ def apply_real(m, regs, op):
             other = regs[op[1]]
             regs[op[1]] = m
             m = other
+    elif k == "allids":
+        pass
+    elif k == "sem":
+        # semantic mode: the operation is applied only where it is defined on this side
+        if m.is_active() and (op[2][0] != "skipq" or m.supports_block_quality()):
+            m = apply_real(m, regs, op[2])
     else:
         raise ValueError(op)
     return m
+
+
+def sem_threshold(thr, op):
+    """the threshold above which both sides must still agree after `op` (in semantic mode)"""
+    if op[0] == "skipq" or (op[0] == "replace" and op[1]):
+        return max(thr, op[1])
+    return thr
+
+
+def replay_program(m, ops):
+    """the transcript of a fixed program on the real matcher (same observations as run_program)"""
+    regs = {}
+    out = [observe(m)]
+    for op in ops:
+        try:
+            with watchdog():
+                m = apply_real(m, regs, ("replace", op[1]) if op[0] == "replace!" else op)
+        except Hang:
+            out.append("(!HANG)")
+            break
+        except Exception as e:  # noqa
+            out.append("(%s)" % err_name(e))
+            break
+        if op[0] == "replace!":
+            out.append(observe_sem(m, op[1]))
+        elif op[0] == "sem":
+            out.append(observe_sem(m, op[1]))
+        elif op[0] == "allids":
+            out.append(observe_allids(m))
+        else:
+            out.append(observe(m))
+    return out
 
 
 def thresholds(rng, m, scores):
@@ -465,7 +646,46 @@ def thresholds(rng, m, scores):
     return rng.choice(cand)
 
 
-def run_program(rng, m, nops, scores, allow_copy, error_stream=False, quality=True, maxid=NDOCS + 4, qbias=1):
+def _run_semantic(rng, m, nops, scores, thr, ops, out, regs):
+    """the rest of a program after a reshaping replace: skip_to / skip_to_quality / replace, each followed by
+    the comparison of what is left above the largest threshold used since the reshaping"""
+    for _ in range(nops):
+        if not m.is_active():
+            break
+        k = rng.choice(["next", "next", "next", "skip", "skip", "skipq", "skipq", "replace", "replace"])
+        try:
+            cur = m.id()
+        except Exception:  # noqa
+            break
+        if k == "next":
+            op = ("skip", cur + 1)
+        elif k == "skip":
+            op = ("skip", max(0, cur + rng.choice([-2, 0, 1, 2, 3, 4, 6, 9, 40])))
+        elif k == "skipq":
+            if not m.supports_block_quality():
+                continue
+            op = ("skipq", thresholds(rng, m, scores))
+        else:
+            op = ("replace", thresholds(rng, m, scores) if rng.random() < 0.7 else 0)
+        thr = sem_threshold(thr, op)
+        sop = ("sem", thr, op)
+        ops.append(sop)
+        try:
+            with watchdog():
+                m = apply_real(m, regs, sop)
+        except Hang:
+            out.append("(!HANG)")
+            return
+        except Exception as e:  # noqa
+            out.append("(%s)" % err_name(e))
+            return
+        out.append(observe_sem(m, thr))
+        if out[-1].startswith("(H !") or out[-1] == "(H )":
+            return
+
+
+def run_program(rng, m, nops, scores, allow_copy, error_stream=False, quality=True, maxid=NDOCS + 4, qbias=1,
+                semantic=True, allow_reset=True):
     """Generate a program adaptively while executing it on the real matcher.  Returns (ops, transcript).
     Mostly valid: operations that raise on an exhausted matcher are only issued in the error stream."""
     regs = {}
@@ -477,15 +697,15 @@ def run_program(rng, m, nops, scores, allow_copy, error_stream=False, quality=Tr
             choices += ["next"] * 6 + ["skip"] * 4
             if quality and m.supports_block_quality():
                 choices += ["skipq"] * (3 * qbias)
-        choices += ["replace"] * ((3 * qbias) if quality else 1) + ["reset"]
+        choices += ["replace"] * ((3 * qbias) if quality else 1) + (["reset"] if allow_reset else [])
         if allow_copy:
-            choices += ["copy", "swap"]
+            choices += ["copy", "swap", "allids"]
         k = rng.choice(choices)
         if not active and not error_stream:
             # an exhausted matcher: rewind (mostly), switch to a copy, or end the program - do not burn the
             # remaining operations on calls that cannot move
             r = rng.random()
-            if r < 0.55:
+            if r < 0.55 and allow_reset:
                 k = "reset"
             elif r < 0.70 and allow_copy:
                 k = "swap"
@@ -526,13 +746,14 @@ def run_program(rng, m, nops, scores, allow_copy, error_stream=False, quality=Tr
             # A reshaping replace(q != 0).  The shape of the replacement is deliberately not compared (DESIGN
             # Appendix F): it depends on object sharing between a matcher and its replacement, which the
             # value-level model does not have (AndMaybeMatcher.replace reads a.max_quality() after a.replace()
-            # has advanced the sub-matchers it shares with the new matcher).  What must agree is the entry the
-            # replacement is on, if it scores above the threshold; the comparison of this program ends here
-            # (the end-to-end walks continue through such replacements with the semantic check).
+            # has advanced the sub-matchers it shares with the new matcher).  What must agree is the meaning:
+            # the entries above the threshold that are left.  The program goes on in semantic mode.
             ops[-1] = ("replace!", op[1])
-            out.append(observe_reshaped(m, op[1]))
+            out.append(observe_sem(m, op[1]))
+            if semantic and not out[-1].startswith("(H !"):
+                _run_semantic(rng, m, nops - len(ops), scores, op[1], ops, out, regs)
             break
-        out.append(observe(m))
+        out.append(observe_allids(m) if op[0] == "allids" else observe(m))
     return ops, out
 
 
@@ -759,6 +980,92 @@ class patched_wrapping_replace(object):
     def __exit__(self, *a):
         self.cls.replace = self.old
         return False
+
+
+class ModelError(Exception):
+    pass
+
+
+class ModelMatcher(object):
+    """The Lean model behind the matcher interface (one driver round trip per operation): lets the
+    end-to-end walks run on the model.  Used to decide whether a failing walk of the real code is a
+    failure of the *pinned* code (which the model mirrors) or one that only the checked tree has."""
+
+    def __init__(self, ask1, tree_text, plan=()):
+        self.ask1 = ask1
+        self.tree = tree_text
+        self.ops = []
+        self.obs = None
+        self.cache = {}
+        if plan:
+            # one round trip for the whole planned walk: the transcript holds the observation of every prefix
+            plan = [self._norm(o) for o in plan]
+            for k, o in enumerate(self._run(plan)):
+                self.cache[tuple(plan[:k])] = o
+
+    @staticmethod
+    def _norm(op):
+        return ("skip", max(0, op[1])) if op[0] == "skip" else tuple(op)
+
+    def _run(self, ops):
+        from vcheck import parse_sexp
+        rep = self.ask1("c11 run %s (%s)" % (self.tree, " ".join(op_sexp(o) for o in ops)))
+        return parse_sexp(rep)[0]
+
+    def _observe(self):
+        if self.obs is None:
+            key = tuple(self.ops)
+            if key not in self.cache:
+                self.cache[key] = self._run(self.ops)[-1]
+            last = self.cache[key]
+            if last and isinstance(last[0], str) and last[0].startswith("!"):
+                raise ModelError(last[0])
+            self.obs = last
+        return self.obs
+
+    def _do(self, op):
+        self._observe()
+        self.ops.append(self._norm(op))
+        self.obs = None
+        self._observe()
+
+    def is_active(self):
+        return self._observe()[0] == "1"
+
+    def _field(self, k):
+        o = self._observe()
+        if o[0] != "1" or o[k].startswith("!"):
+            raise ModelError(o[k] if o[0] == "1" else "inactive")
+        return o[k]
+
+    def id(self):
+        return int(self._field(1))
+
+    def score(self):
+        return float(Fraction(self._field(2)))
+
+    def supports_block_quality(self):
+        o = self._observe()
+        return o[0] == "1" and o[3] == "1"
+
+    def block_quality(self):
+        return float(Fraction(self._field(4)))
+
+    def max_quality(self):
+        return float(Fraction(self._field(5)))
+
+    def next(self):
+        self._do(("next",))
+
+    def skip_to(self, t):
+        self._do(("skip", t))
+
+    def skip_to_quality(self, q):
+        self._do(("skipq", q))
+
+    def replace(self, q=0):
+        self._do(("replace", q))
+        return self
 
 
 # ------------------------------------------------------------------------------------------------
